@@ -484,6 +484,9 @@ func (g *G) SchemaChange(i int) *Change {
 
 // RandomChange picks a random exact-oracle change.
 func (g *G) RandomChange() *Change {
+	if g.R.Intn(12) == 0 {
+		return g.SharedSectionsChange()
+	}
 	if g.R.Intn(5) < 2 {
 		return g.RandomExprChange()
 	}
@@ -515,6 +518,12 @@ func (g *G) InstancePlants(c *Change, n, m int) ([]Plant, []string) {
 				continue
 			}
 		}
+		if c.PlantFn != nil && g.R.Intn(4) > 0 {
+			if t := c.PlantFn(g); PlantParses(c.Kind, t) {
+				plants = append(plants, Plant{Kind: c.Kind, Text: t})
+				continue
+			}
+		}
 		for try := 0; try < 5; try++ {
 			t, _ := c.Instance(g)
 			if c.Kind == "stmts" && c.HasDots() && g.R.Intn(3) == 0 {
@@ -532,6 +541,13 @@ func (g *G) InstancePlants(c *Change, n, m int) ([]Plant, []string) {
 		}
 	}
 	for i := 0; i < m; i++ {
+		if g.R.Intn(3) == 0 {
+			if st, ok := c.SkewInstance(g); ok && PlantParses(c.Kind, st) {
+				plants = append(plants, Plant{Kind: c.Kind, Text: st})
+				kinds = append(kinds, "occurrences-differ-at-metavariable-named-identifier")
+				continue
+			}
+		}
 		t, _ := c.Instance(g)
 		if c.Kind == "stmts" && strings.HasPrefix(t, "for ") && g.R.Intn(2) == 0 {
 			// a labelled loop is a labelled statement, not a for statement: a near-miss of 'for ... {'
